@@ -9,6 +9,8 @@ All statements hold for every plan, every time vector, every stop time and every
 -/
 import StarsimModel.Lemmas.RunState
 import StarsimModel.Lemmas.Loop
+import StarsimModel.Lemmas.Binding
+import StarsimModel.Generated.ClosureFacts
 
 namespace StarsimModel.C09
 open StarsimModel.Loop StarsimModel.RunState
@@ -290,5 +292,93 @@ example : errOf (apply exCfg (applyAll exCfg (fresh exCfg) [.run none]) .finaliz
 /-- a manual `finalize` in the middle makes the completing `run` raise (the results were already rescaled once) -/
 example : errOf (apply exCfg (applyAll exCfg (fresh exCfg) [.run (some 2000), .finalize]) (.run none)).2
     = some .alreadyRun := by decide
+
+/-! ### Round 5: the object graph — which sim a scheduled function acts on (Model/Binding.lean, Generated/ClosureFacts.lean) -/
+
+section Binding
+open StarsimModel.Binding
+
+/-- No nested function of the object-graph source files that ESCAPES its enclosing call (stored on a module, passed to
+    `partial`, returned) captures a parameter of that call (`self`, `sim`, `mod`, …) in a closure cell: every scheduled
+    function is a bound method or a `partial` over a module — `Callee.method`, the hypothesis `allMethod` below.
+    (`Module.from_func`'s `step(mod)` takes the module as its ARGUMENT and looks `mod.sim` up when called.) -/
+theorem C09_no_escaping_closure_over_objects :
+    Gen.nestedCaptures.all (fun r => !r.2.2.2.1 || r.2.2.2.2.isEmpty) = true := by decide
+
+/-- `Loop.__deepcopy__` deep-copies the plan with the memo of the surrounding copy (so the bound methods in it are rebuilt over
+    the copied receivers: `rebindDeep` on `Callee.method`). -/
+theorem C09_plan_copied_with_memo : Gen.planDeepCopied = true ∧ Gen.planCopySharesMemo = true := by decide
+
+/-- **Twins on the object graph (deep copy).** In any world of sim objects, a deep copy of a sim all of whose scheduled
+    functions act on that sim and none of which is a closure is bound to ITSELF: continuing the copy by any number `n` of
+    functions and then the original by any number `m` takes each of them exactly where it would have gone alone (state = its
+    own functions folded over its own state, cursor advanced by its own count), and no other object of the world moves. -/
+theorem C09_bound_twins (step : σ → Nat → σ) (w : World σ) (i : Nat) (o : Obj σ) (hw : w[i]? = some o)
+    (hb : wellBound i o) (hm : allMethod o) (n m : Nat) (hn : o.index + n ≤ o.plan.length) (hm' : o.index + m ≤ o.plan.length) :
+    let w2 := runN step (runN step (deepcopy w i) w.length n) i m
+    (w2[w.length]?.map (fun x => (x.st, x.index))) = some (foldFrom step o.st o.index n, o.index + n) ∧
+    (w2[i]?.map (fun x => (x.st, x.index))) = some (foldFrom step o.st o.index m, o.index + m) ∧
+    ∀ j, j < w.length → j ≠ i → w2[j]? = w[j]? := by
+  intro w2
+  have hi : i < w.length := get_lt_of_some w i o hw
+  obtain ⟨⟨o', h1, hb', _, hst, hidx, hlen⟩, hold⟩ := deepcopy_spec w i o hw hb hm
+  obtain ⟨a1, a2⟩ := runN_spec step n (deepcopy w i) w.length o' h1 hb' (by rw [hidx, hlen]; exact hn)
+  have hne : i ≠ w.length := by omega
+  have hwi : (runN step (deepcopy w i) w.length n)[i]? = some o := by rw [a2 i hne, hold i hi]; exact hw
+  obtain ⟨b1, b2⟩ := runN_spec step m _ i o hwi hb hm'
+  refine ⟨?_, ?_, ?_⟩
+  · show ((runN step (runN step (deepcopy w i) w.length n) i m)[w.length]?.map _) = _
+    rw [b2 w.length (Ne.symm hne), a1]; simp [hst, hidx]
+  · show ((runN step (runN step (deepcopy w i) w.length n) i m)[i]?.map _) = _
+    rw [b1]; rfl
+  · intro j hj hji
+    show (runN step (runN step (deepcopy w i) w.length n) i m)[j]? = _
+    rw [b2 j hji, a2 j (by omega), hold j hj]
+
+/-- **Twins on the object graph (pickle round trip, save + load).** The same for a by-value copy, whatever the scheduled
+    functions are (closures included: dill serialises their cells inside the same graph). -/
+theorem C09_bound_twins_by_value (step : σ → Nat → σ) (w : World σ) (i : Nat) (o : Obj σ) (hw : w[i]? = some o)
+    (hb : wellBound i o) (n m : Nat) (hn : o.index + n ≤ o.plan.length) (hm' : o.index + m ≤ o.plan.length) :
+    let w2 := runN step (runN step (byValue w i) w.length n) i m
+    (w2[w.length]?.map (fun x => (x.st, x.index))) = some (foldFrom step o.st o.index n, o.index + n) ∧
+    (w2[i]?.map (fun x => (x.st, x.index))) = some (foldFrom step o.st o.index m, o.index + m) ∧
+    ∀ j, j < w.length → j ≠ i → w2[j]? = w[j]? := by
+  intro w2
+  have hi : i < w.length := get_lt_of_some w i o hw
+  obtain ⟨⟨o', h1, hb', hst, hidx, hlen⟩, hold⟩ := byValue_spec w i o hw hb
+  obtain ⟨a1, a2⟩ := runN_spec step n (byValue w i) w.length o' h1 hb' (by rw [hidx, hlen]; exact hn)
+  have hne : i ≠ w.length := by omega
+  have hwi : (runN step (byValue w i) w.length n)[i]? = some o := by rw [a2 i hne, hold i hi]; exact hw
+  obtain ⟨b1, b2⟩ := runN_spec step m _ i o hwi hb hm'
+  refine ⟨?_, ?_, ?_⟩
+  · show ((runN step (runN step (byValue w i) w.length n) i m)[w.length]?.map _) = _
+    rw [b2 w.length (Ne.symm hne), a1]; simp [hst, hidx]
+  · show ((runN step (runN step (byValue w i) w.length n) i m)[i]?.map _) = _
+    rw [b1]; rfl
+  · intro j hj hji
+    show (runN step (runN step (byValue w i) w.length n) i m)[j]? = _
+    rw [b2 j hji, a2 j (by omega), hold j hj]
+
+/-- a sim (object 1 of a world of two) with three ordinary scheduled functions, paused after the first -/
+def exWorld : World Nat := [⟨100, 0, []⟩, ⟨0, 1, [⟨.method, 1⟩, ⟨.method, 1⟩, ⟨.method, 1⟩]⟩]
+/-- the same sim with its second function a closure over the sim (what `def step(): return self.func(sim)` is) -/
+def exWorldClosure : World Nat := [⟨100, 0, []⟩, ⟨0, 1, [⟨.method, 1⟩, ⟨.closure, 1⟩, ⟨.method, 1⟩]⟩]
+def exStep : Nat → Nat → Nat := fun s k => 10 * s + k + 1
+
+/-- non-vacuity of `C09_bound_twins`: the hypotheses hold on `exWorld`, and the deep copy (object 2) finishes alone -/
+example : wellBound 1 ⟨(0 : Nat), 1, [⟨.method, 1⟩, ⟨.method, 1⟩, ⟨.method, 1⟩]⟩ ∧
+    allMethod ⟨(0 : Nat), 1, [⟨.method, 1⟩, ⟨.method, 1⟩, ⟨.method, 1⟩]⟩ := by
+  constructor <;> (intro sl hsl; simp at hsl; simp [hsl])
+example : ((runN exStep (deepcopy exWorld 1) 2 2).map (fun x => (x.st, x.index))) = [(100, 0), (0, 1), (23, 3)] := by decide
+
+/-- **Counterexample without `allMethod`.** With a closure among the scheduled functions a DEEP copy is not independent:
+    finishing the copy (object 2) applies the closure's function to the ORIGINAL (object 1: state 0 → 2 while its cursor still
+    says "paused after 1") and the copy ends without that function's effect (3 instead of 23) — while a by-value copy of the
+    very same sim is fine. -/
+theorem C09_closure_copy_counterexample :
+    ((runN exStep (deepcopy exWorldClosure 1) 2 2).map (fun x => (x.st, x.index))) = [(100, 0), (2, 1), (3, 3)] ∧
+    ((runN exStep (byValue exWorldClosure 1) 2 2).map (fun x => (x.st, x.index))) = [(100, 0), (0, 1), (23, 3)] := by decide
+
+end Binding
 
 end StarsimModel.C09
